@@ -123,6 +123,7 @@ let () =
       let order_req : int list option ref = ref None in
       let lswap_pending = ref false in   (* C08: a LEVELDOWN op since the last snapshot *)
       let prev_v2l : int array ref = ref [||] in
+      let prev_counts : (int * int) option ref = ref None in
       let last_gc = ref (-1) in
       let tm_ops : (string list * string) list ref = ref [] in   (* C05 (terminals): ops since the last snapshot *)
       let init_inner = ref (-1) in
@@ -785,6 +786,14 @@ let () =
         (match !order_req with
          | Some req ->
            check "C08";
+           (* Manager::reorder bumps gc_count and reorder_count: a reordering that moved levels frees and re-uses
+              node ids, and whatever is keyed by node ids (sat-count caches) is validated against these counters *)
+           (match !prev_counts with
+            | Some (pgc, pro) when Array.length !prev_v2l = n && !prev_v2l <> ps.v2l && (ps.gc <= pgc || ps.reorder <= pro) ->
+              fail step "C08" "prop"
+                (Printf.sprintf "a reordering that moved levels left gc_count %d -> %d / reorder_count %d -> %d (both must increase)"
+                   pgc ps.gc pro ps.reorder)
+            | _ -> ());
            let rec sorted = function
              | a :: (b :: _ as r) -> ps.v2l.(a) < ps.v2l.(b) && sorted r
              | _ -> true in
@@ -802,6 +811,7 @@ let () =
            order_req := None
          | None -> ());
         prev_v2l := ps.v2l;
+        prev_counts := Some (ps.gc, ps.reorder);
         if !digest_order then
           Buffer.add_string digest
             (Printf.sprintf "%d:o%s;" step (String.concat "," (List.map string_of_int (Array.to_list ps.v2l))));
